@@ -271,6 +271,12 @@ BalanceOutcomes(b, w) ==
             IF x < 0 THEN [res |-> "error", val |-> 0] ELSE [res |-> "ok", val |-> x]
           : tip \in TipsOf(b)}
 
+\* ReadDAGTransactionsByAddress: the transactions of one tip and its live ancestors that name the address
+\* (nothing from the checkpointed part)
+HistoryOutcomes(b, w) ==
+    IF TipsOf(b) = {} THEN {[res |-> "error", out |-> {}]}
+    ELSE {[res |-> "ok", out |-> {T(v).id : v \in {x \in {tip} \cup Anc(b, tip) : w \in {T(x).iss, T(x).rcv}}}] : tip \in TipsOf(b)}
+
 \* ReadTransactionByHash: through the index, then graph, then store
 ReadTrxOutcome(b, tid) ==
     LET v == b.index[tid] IN
